@@ -137,7 +137,9 @@ class JobSet(BaseJobSet):
         self.handle._inform_observers()
 
     def finished_job(self):
-        self.check_status()
+        # No `check_status()` here: the job has already had its effect, so
+        # raising now would leave it applied but unaccounted for.  A stop
+        # request is honoured when the next job is about to start.
         self.done += 1
         self.handle._inform_observers()
         self.job_name = None
